@@ -58,6 +58,8 @@ type World struct {
 	Methods                   map[string]int
 	scanned                   uint64
 	HtlcOn                    bool
+	StallCount                int
+	Stalls                    bool // now and then no momentum for one to three epochs
 }
 
 type htlc struct {
@@ -260,8 +262,12 @@ func (w *World) Step() {
 					total = w.boundary()
 				}
 			}
+			mintable := w.R.Intn(3) != 0
+			if !mintable && w.R.Intn(4) != 0 {
+				total = max // the only shape a non-mintable token is accepted in
+			}
 			if b := w.call("token.Issue", u, types.TokenContract, znn, constants.TokenIssueAmount,
-				definition.ABIToken.PackMethodPanic(definition.IssueMethodName, name, "T"+fmt.Sprint(w.R.Intn(99)), "", total, max, uint8(8), true, true, w.R.Intn(2) == 0)); b != nil {
+				definition.ABIToken.PackMethodPanic(definition.IssueMethodName, name, "T"+fmt.Sprint(w.R.Intn(99)), "", total, max, uint8(w.R.Intn(19)), mintable, w.R.Intn(2) == 0, w.R.Intn(2) == 0)); b != nil {
 				w.Tokens = append(w.Tokens, token{u, types.NewZenonTokenStandard(b.Hash.Bytes())})
 			}
 		case 1:
@@ -367,6 +373,11 @@ func (w *World) Run(momentums int) error {
 		skip := 0
 		if w.R.Intn(10) == 0 {
 			skip = 1 + w.R.Intn(2)
+		}
+		if w.Stalls && w.R.Intn(50) == 0 {
+			// the network stalls for one to three epochs: the next Update of each reward contract has several epochs to catch up
+			skip = EpochMomentums + w.R.Intn(2*EpochMomentums)
+			w.StallCount++
 		}
 		if err := w.N.Produce(skip); err != nil {
 			return err
